@@ -100,7 +100,9 @@ func (c *connector) Close() error {
 
 type drv struct{}
 
-func (drv) Open(name string) (driver.Conn, error) { return nil, errors.New("verif sqlx: use connector") }
+func (drv) Open(name string) (driver.Conn, error) {
+	return nil, errors.New("verif sqlx: use connector")
+}
 
 type conn struct {
 	c *connector
@@ -109,8 +111,10 @@ type conn struct {
 func (c *conn) Prepare(query string) (driver.Stmt, error) {
 	return nil, errors.New("verif sqlx: prepared statements are not used by mysync")
 }
-func (c *conn) Close() error              { return nil }
-func (c *conn) Begin() (driver.Tx, error) { return nil, errors.New("verif sqlx: transactions are not used by mysync") }
+func (c *conn) Close() error { return nil }
+func (c *conn) Begin() (driver.Tx, error) {
+	return nil, errors.New("verif sqlx: transactions are not used by mysync")
+}
 
 func (c *conn) call(ctx context.Context, query string, args []driver.NamedValue) sim.Reply {
 	return c.c.w.SQLCall(ctx, c.c.proc, c.c.host, query, args)
